@@ -420,6 +420,10 @@ fn op_ctx(op: &Op, depth: u32) -> OpCtx {
         match f {
             Fault::IterPanic { k } => ctx.faults.push(SeamFault { seam: SeamKind::Iter, n: *k, action: SeamAction::Panic }),
             Fault::CbPanic { j } => ctx.faults.push(SeamFault { seam: SeamKind::Cb, n: *j, action: SeamAction::Panic }),
+            Fault::Reenter { seam: SeamKind::Unwind, op, .. } => {
+                ctx.nested_ops.push((**op).clone());
+                ctx.unwind_op = Some(ctx.nested_ops.len() - 1);
+            }
             Fault::Reenter { seam, n, op } => {
                 ctx.nested_ops.push((**op).clone());
                 ctx.faults.push(SeamFault {
@@ -808,8 +812,19 @@ fn reference_phase_inner(sc: &Scenario, reverse: bool) -> RefPhase {
             parsers.push(build_parser(cfg));
         }
     } else {
-        for cfg in &sc.parsers {
-            parsers.push(template_clone(cfg));
+        for (j, cfg) in sc.parsers.iter().enumerate() {
+            // Half of the scenarios: a parser whose kind of converter an earlier parser of the
+            // scenario already has, but with other extensions, is made the way applications make
+            // it - `CooklangParser::new(other_extensions, earlier.converter().clone())`. Whatever
+            // a converter hands on to its clones is then shared between two extension sets.
+            let earlier = (0..j).find(|&i| sc.parsers[i].converter == cfg.converter && sc.parsers[i].ext_bits != cfg.ext_bits);
+            match earlier {
+                Some(i) if sc.hash_seed % 2 == 0 => {
+                    let conv = parsers[i].converter().clone();
+                    parsers.push(CooklangParser::new(Extensions::from_bits_truncate(cfg.ext_bits), conv));
+                }
+                _ => parsers.push(template_clone(cfg)),
+            }
         }
     }
     cooklang::verif_seam::reseed(sc.hash_seed ^ 0x1234_5678);
